@@ -62,6 +62,12 @@ def generate(rng, tier):
             c["xmin"] = None
             c["xmax"] = None if (i // 10) % 2 else c["xin"][-1]
             c["desc"]["window"] = "no_lower_limit_negative_abscissae"
+        if i % 10 == 2 and len(c["xin"]) >= 4 and c["xmin"] is not None and c["xmax"] is not None and not c["omitted"] and not (i % 6 == 5):
+            # a dead bin: one abscissa is NaN; it is in no closed interval, so an explicit window deletes it
+            c["xin"] = list(c["xin"])
+            c["xin"][len(c["xin"]) // 2] = float("nan")
+            c["int_dtype"] = [False, c["int_dtype"][1], c["int_dtype"][2]]
+            c["desc"]["grid"] = str(c["desc"]["grid"]) + "+nan_abscissa"
         cases.append(c)
     return cases
 
